@@ -105,6 +105,29 @@ func GetRootFieldsAccessed(op Operation) (rootFieldsAccessed []string) {
 }
 
 func AddressedPaths(op Operation) (addressedPaths [][]string) {
+	for _, ap := range addressedPathsOf(op) {
+		addressedPaths = append(addressedPaths, ap.keys)
+	}
+
+	retAddressedPaths := make([][]string, 0, len(addressedPaths))
+
+	for _, val := range addressedPaths {
+		if !sliceContains(retAddressedPaths, val) && !slicesContainsSubsetSlice(retAddressedPaths, val) && len(val) > 0 {
+			retAddressedPaths = append(retAddressedPaths, val)
+		}
+	}
+
+	return retAddressedPaths
+}
+
+// addressedPath is a chain of keys and whether it starts at the root of the data (a `$` path) whatever
+// surrounds it; a chain that does not is relative to what surrounds it
+type addressedPath struct {
+	keys     []string
+	fromRoot bool
+}
+
+func addressedPathsOf(op Operation) (addressedPaths []addressedPath) {
 	// check stuff
 	switch v := op.(type) {
 	case *opPath:
@@ -121,8 +144,13 @@ func AddressedPaths(op Operation) (addressedPaths [][]string) {
 
 			case *opFilter:
 				for _, logOp := range vv.LogicalOperation.Operations {
-					for _, val := range AddressedPaths(logOp) {
-						addressedPaths = append(addressedPaths, append(append([]string{}, idents...), val...))
+					for _, val := range addressedPathsOf(logOp) {
+						if val.fromRoot {
+							// a `$` path inside a condition is not relative to the collection that is filtered
+							addressedPaths = append(addressedPaths, val)
+							continue
+						}
+						addressedPaths = append(addressedPaths, addressedPath{append(append([]string{}, idents...), val.keys...), v.StartAtRoot})
 					}
 				}
 
@@ -131,31 +159,23 @@ func AddressedPaths(op Operation) (addressedPaths [][]string) {
 					// an argument that is a path or a group of paths navigates its own chains
 					switch pt := param.(type) {
 					case *FP_Path:
-						addressedPaths = append(addressedPaths, AddressedPaths(pt.Value)...)
+						addressedPaths = append(addressedPaths, addressedPathsOf(pt.Value)...)
 					case *FP_LogicalOperation:
-						addressedPaths = append(addressedPaths, AddressedPaths(pt.Value)...)
+						addressedPaths = append(addressedPaths, addressedPathsOf(pt.Value)...)
 					}
 				}
 			}
 		}
 
-		addressedPaths = append(addressedPaths, idents)
+		addressedPaths = append(addressedPaths, addressedPath{idents, v.StartAtRoot})
 
 	case *opLogicalOperation:
 		for _, p := range v.Operations {
-			addressedPaths = append(addressedPaths, AddressedPaths(p)...)
+			addressedPaths = append(addressedPaths, addressedPathsOf(p)...)
 		}
 	}
 
-	retAddressedPaths := make([][]string, 0, len(addressedPaths))
-
-	for _, val := range addressedPaths {
-		if !sliceContains(retAddressedPaths, val) && !slicesContainsSubsetSlice(retAddressedPaths, val) && len(val) > 0 {
-			retAddressedPaths = append(retAddressedPaths, val)
-		}
-	}
-
-	return retAddressedPaths
+	return
 }
 
 // Checks if a given value is present in a slice.
